@@ -59,8 +59,28 @@ func parseTLA(s string) (tla.Value, error) {
 func readTraceFile(a *actor) ([]trace.Event, error) {
 	dir := os.Getenv("PGO_TRACE_DIR")
 	ms, _ := filepath.Glob(filepath.Join(dir, "trace-"+strOf(a.self)+"-*.log"))
+	// listing a directory that other workers create and remove files in at the same time may return an entry twice
+	seenName := map[string]bool{}
+	uniq := ms[:0]
+	for _, m := range ms {
+		if !seenName[m] {
+			seenName[m] = true
+			uniq = append(uniq, m)
+		}
+	}
+	ms = uniq
 	if len(ms) != 1 {
-		return nil, fmt.Errorf("%d log files for self %v", len(ms), a.self)
+		// diagnostic detail: which files, how big, how they start
+		detail := ""
+		for _, m := range ms {
+			b, _ := os.ReadFile(m)
+			head := string(b)
+			if len(head) > 160 {
+				head = head[:160]
+			}
+			detail += fmt.Sprintf(" [%s: %d bytes: %s]", filepath.Base(m), len(b), head)
+		}
+		return nil, fmt.Errorf("%d log files for self %v:%s", len(ms), a.self, detail)
 	}
 	f, err := os.Open(ms[0])
 	if err != nil {
